@@ -263,7 +263,7 @@ def parse_obs(path):
         elif k == "VSPECIES":
             cur["species"][int(w[1])] = w[2]
         elif k == "VSTAGE":
-            cur["stages"].append(dict(kind=w[1], c1=w[2], c2=w[3], cls=w[4], symbol=w[5], stage=int(w[6])))
+            cur["stages"].append(dict(kind=w[1], c1=w[2], c2=w[3], cls=w[4], symbol=w[5] if len(w) > 6 else "", stage=int(w[-1])))
         elif k == "VP":
             segs = line.split(" | ")
             h = segs[0].split()
